@@ -667,6 +667,9 @@ def oracle_extract(c, r):
     n = len(S)
     t0, t1 = Fraction(c["t0"]), Fraction(c["t1"])
     if not t0 <= t1:
+        # a time range that ends before it starts is rejected (ArgumentError), nothing is extracted
+        if tuple(r[:2]) != ("err", "ArgumentError"):
+            return Failure(dict(sig, clause="reversed-rejected"), f"extractSubwav({c['t0']}, {c['t1']}): a reversed range gave {r[0]} {str(r[1])[:40]}, not ArgumentError")
         return None
     if r[0] == "err":
         return Failure(dict(sig, clause="no-error", exc=r[1]), f"extractSubwav({c['t0']}, {c['t1']}) raised {r[1]}")
@@ -906,6 +909,9 @@ def corpus():
         yield {"op": "extract", "w": w, "rate": 8, "hex": ramp(16, w), "t0": 1.5, "t1": 9.0}
         yield {"op": "extract", "w": w, "rate": 8, "hex": ramp(16, w), "t0": 3.0, "t1": 9.0}
         yield {"op": "extract", "w": w, "rate": 8, "hex": ramp(16, w), "t0": -2.0, "t1": -1.0}
+        # C16-3 (fixed, 0a07868): a reversed range wrote an empty file; it is an ArgumentError now (QueryWav.getFrames)
+        yield {"op": "extract", "w": w, "rate": 8, "hex": ramp(16, w), "t0": 0.5, "t1": 0.25}
+        yield {"op": "extract", "w": w, "rate": 8, "hex": ramp(16, w), "t0": 0.5, "t1": -0.25}
     # splitAudioOnTier
     words = [[0.5, 1.0, "a"], [1.0, 2.0, "b"], [3.0, 4.5, "a"]]
     others = [{"k": "I", "name": "phones", "es": [[0.5, 0.75, "p"], [0.75, 1.5, "q"], [3.5, 4.0, "r"]]},
